@@ -9,7 +9,7 @@ REPLAY = "replay/c32.py"
 def build(reg):
     P.register(reg, "C32")
     M, O = P.PERM, P.OPT
-    samples = (0, 3, 10) if P.tier() == "thorough" else (0, 3)
+    samples = (0, 3)
     return dict(
         targets=[f"{M}:eye_permutation", f"{M}:permute_list", f"{M}:permute_tuple", f"{M}:permute_string",
                  f"{M}:inv_permutation", f"{M}:permute_tensor[1d]", f"{M}:permute_tensor[1d,permutation]",
@@ -31,8 +31,8 @@ def build(reg):
                  "torch.randperm(n) returns a permutation of range(n) (A4)",
                  "torch.max over a matrix is a function of the matrix entries (extensional), (A3)"],
         bounded=[f"minimize_bandwidth: number of random restarts `samples` fixed to {samples} "
-                 "(10 in the thorough tier only).  emu-mps always uses the default samples = 100: NOT verified at that "
-                 "size (101 modular calls did not finish in 30 min); the proof is uniform in the number of candidates "
+                 "in both tiers.  emu-mps always uses the default samples = 100: NOT verified at that size (101 modular "
+                 "calls did not finish in 30 min, 11 not in 15 min); the proof is uniform in the number of candidates "
                  "(each candidate is handled by the same contract of minimize_bandwidth_impl and min() picks one of "
                  "them) but that uniformity is not mechanised.  Matrix size n is symbolic",
                  "minimize_bandwidth_global: the 90 thresholds of torch.arange(0.1, 1.0, 0.01) are unrolled "
